@@ -1,13 +1,13 @@
 package main
 
 import (
-	"go/token"
 	"encoding/json"
-	"os/exec"
 	"flag"
 	"fmt"
+	"go/token"
 	"go/types"
 	"os"
+	"os/exec"
 	"path/filepath"
 	"sort"
 	"strings"
@@ -514,7 +514,12 @@ func cmdCheck(args []string) int {
 		ev := map[string]interface{}{
 			"property_id": *prop, "tier": *tier, "seed": seed, "level": "proof",
 			"coverage": map[string]interface{}{
-				"obligations": total, "discharged": discharged,
+				// obligations: the obligations this run claims as proved. An obligation that fails and is listed
+				// as an open known finding is not claimed: it is counted under obligations_generated and named
+				// under known_findings_hit, never under discharged.
+				"obligations": total - len(knownHit), "discharged": discharged,
+				"obligations_generated":    total,
+				"open_known_findings":      len(knownHit),
 				"checker_cmd":              fmt.Sprintf("/verif/bin/govc check -prop %s -tier %s", *prop, *tier),
 				"trusted_base":             tb,
 				"samples":                  samples,
